@@ -14,7 +14,7 @@ use std::time::Duration;
 
 pub static PROP: Prop = Prop {
     id: "C14",
-    rule: "cases: in a fresh child process per case, a chain of 1-4 handlers, each of one of 15 kinds {a global function called twice in one program, a context function that reads - through a second handle on its context - what the running program has bound so far and binds a name the program reads afterwards, a context function called as f(...) and used again by its bare name in the same program, global function, prefix operator, infix operator, postfix operator, SETTER operator, context function called as f(...), context function reached by the bare name f - alone, inside a list of names, as a map key, as a call argument, in a condition -, context function read as an assignment target (f = 1)}; every handler but the last re-enters the engine by executing a program that invokes the next handler; the last performs one of 16 re-entrant actions {replacing every running global function by another handler (the second call in the same program must reach the new one), registering the very function that the enclosing call is about to invoke, re-registering under their own names all the handlers that are running at that moment, registering an infix / postfix / prefix operator whose word occurs in a later statement of the outer program that is still running (the program was read before the handler ran, so its result is the one of the reading without that operator), parse_expression, execute with a fresh context (program using functions and all operator kinds), execute on the SAME context (read), execute on the same context (assignment), register_function, register_prefix_op, register_infix_op, register_postfix_op, lock the evaluating context's public handle and read it, get_variable/set_variable through a second handle}. Oracle (1, deterministic): the first thing every handler does is try_lock on all four registries, the descriptor store and the evaluating context: on this single-threaded evaluation every lock must be free; (2, behavioural): the action is really performed under a 10 s watchdog (normal: microseconds) and the outer evaluation must return the value computed by hand from the chain. The 15 x 16 single-handler matrix is enumerated exhaustively; chains are generated. Non-trivial: every case (each combines handler kinds with a re-entrant action); distinct by (kind chain, action).",
+    rule: "cases: in a fresh child process per case, a chain of 1-4 handlers, each of one of 15 kinds {a global function called twice in one program, a context function that reads - through a second handle on its context - what the running program has bound so far and binds a name the program reads afterwards, a context function called as f(...) and used again by its bare name in the same program, global function, prefix operator, infix operator, postfix operator, SETTER operator, context function called as f(...), context function reached by the bare name f - alone, inside a list of names, as a map key, as a call argument, in a condition -, context function read as an assignment target (f = 1)}; every handler but the last re-enters the engine by executing a program that invokes the next handler; the last performs one of 16 re-entrant actions {replacing every running global function by another handler (the second call in the same program must reach the new one), registering the very function that the enclosing call is about to invoke, re-registering under their own names all the handlers that are running at that moment, registering an infix / postfix / prefix operator whose word occurs in a later statement of the outer program that is still running (the program was read before the handler ran, so its result is the one of the reading without that operator), parse_expression, execute with a fresh context (program using functions and all operator kinds), execute on the SAME context (read), execute on the same context (assignment), register_function, register_prefix_op, register_infix_op, register_postfix_op, lock the evaluating context's public handle and read it, get_variable/set_variable through a second handle}. Oracle (1, deterministic): the first thing every handler does is try_lock on all four registries, the descriptor store and the evaluating context: on this single-threaded evaluation every lock must be free; (2, behavioural): the action is really performed under a 10 s watchdog (normal: microseconds) and the outer evaluation must return the value computed by hand from the chain. The 15 x 16 single-handler matrix is enumerated exhaustively; chains are generated. Shared-handle scenarios (8 actions x 8 companion programs, enumerated): a context function, called as cf() or by the bare name, holds the guard of its context's public handle and re-enters the engine (execute with calls / with every operator kind, each register_*, parse_expression) while a SECOND evaluation runs on another Context made from the same handle (global call, context call, bare names, every operator kind, assignments); the holder lets the companion run into the guard for 30 ms first; both evaluations must return within the watchdog - the companion may wait for the context only while holding no engine lock. Non-trivial: every case (each combines handler kinds with a re-entrant action); distinct by (kind chain, action).",
     assumptions: &[
         "a watchdog expiry must reproduce on two more runs to count as a deadlock; the try_lock probe gives the precise lock",
         "lock state of the registries is read through the cfg-guarded locks_free() hook",
@@ -421,8 +421,160 @@ pub fn run_case(chain: &[&str], action: &str, env: &Env, st: &mut Stats) -> Case
     }
 }
 
+// ----- a second evaluation on the same shared handle -----
+//
+// The context function of evaluation A holds the guard of its context's public handle and, still
+// holding it, re-enters the engine.  Meanwhile evaluation B runs on a second Context made from the
+// same handle, so B waits for the guard wherever it needs the context.  The property promises that A
+// completes; that requires that B holds no engine lock while it waits for the context.
+
+pub const SHARED_FORMS: [&str; 2] = ["call", "bare"];
+pub const SHARED_ACTIONS: [&str; 8] = ["execute-call", "execute-operators", "register-function", "register-prefix", "register-infix", "register-postfix", "parse", "execute-same-handle"];
+pub const SHARED_COMPANIONS: [&str; 8] = [
+    "sum(1, 2)",
+    "kf(2)",
+    "v + 1",
+    "- v",
+    "v ++",
+    "[sum(v), kf(v), v * 2, - v, v ++, v in [1], not (v == 2)]",
+    "v = 5 ; v += 1 ; v",
+    "kb",
+];
+
+pub fn worker_shared() -> i32 {
+    use std::io::Read;
+    use std::sync::mpsc::channel;
+    install_panic_hook();
+    let mut s = String::new();
+    std::io::stdin().read_to_string(&mut s).ok();
+    let doc: J = serde_json::from_str(&s).unwrap_or(json!({}));
+    let form = doc["form"].as_str().unwrap_or("call").to_string();
+    let action = doc["action"].as_str().unwrap_or("parse").to_string();
+    let companion = doc["companion"].as_str().unwrap_or("1").to_string();
+    let settle = Duration::from_millis(doc["settle_ms"].as_u64().unwrap_or(30));
+    let _ = parse_expression("1"); // tables initialised before the clock matters
+    let (go_tx, go_rx) = channel::<()>();
+    let (started_tx, started_rx) = channel::<()>();
+    let started_rx = Mutex::new(started_rx);
+    let go_tx = Mutex::new(go_tx);
+    let mut ctx_a = Context::new();
+    let handle = ctx_a.0.clone();
+    ctx_a.set_variable("v", Value::from(1));
+    ctx_a.set_func("kf", Arc::new(|a| Ok(Value::List(a))));
+    ctx_a.set_func("kb", Arc::new(|_| Ok(Value::from(9))));
+    let h2 = handle.clone();
+    let act = action.clone();
+    ctx_a.set_func(
+        "cf",
+        Arc::new(move |_| {
+            let guard = h2.lock().unwrap();
+            let _ = go_tx.lock().unwrap().send(());
+            let _ = started_rx.lock().unwrap().recv_timeout(Duration::from_secs(5));
+            std::thread::sleep(settle); // B runs into the guard meanwhile
+            say("action-begin");
+            let r: Value = match act.as_str() {
+                "execute-call" => execute("sum(1, 2) + max(3, 4)", Context::new())?,
+                "execute-operators" => execute("x = 2 ; x += 1 ; [- x, x ++, x in [3], not false, x * 2]", Context::new()).map(|_| Value::from(1))?,
+                "register-function" => {
+                    register_function("vh_sf", Arc::new(|_| Ok(Value::from(1))));
+                    Value::from(1)
+                }
+                "register-prefix" => {
+                    register_prefix_op("vh_sp", Arc::new(|a| Ok(a)));
+                    Value::from(1)
+                }
+                "register-infix" => {
+                    register_infix_op("vh_si", 115, InfixOpType::CALC, InfixOpAssociativity::LEFT, Arc::new(|a, _| Ok(a)));
+                    Value::from(1)
+                }
+                "register-postfix" => {
+                    register_postfix_op("vh_sq", Arc::new(|a| Ok(a)));
+                    Value::from(1)
+                }
+                "parse" => parse_expression("sum(1) + f(2) vh_x - [3 ++]").map(|a| a.expr().len()).map(|_| Value::from(1))?,
+                // a Context made from the guarded map's contents would need the guard; instead the
+                // handler evaluates on a fresh context a program of every node kind
+                _ => execute("[min(1, 2), {1 : 2}, true ? 1 : 2, 'a' beginWith 'a']", Context::new()).map(|_| Value::from(1))?,
+            };
+            say("action-end");
+            drop(guard);
+            Ok(r)
+        }),
+    );
+    let ctx_b = share(&ctx_a);
+    let tb = std::thread::spawn(move || {
+        let _ = go_rx.recv_timeout(Duration::from_secs(5));
+        let _ = started_tx.send(());
+        let r = guard(|| execute(&companion, ctx_b).map(|v| V::from_value(&v).key()).map_err(|e| e.to_string()));
+        say(&format!("companion {:?}", r));
+    });
+    let text = if form == "call" { "cf()" } else { "cf" };
+    let r = guard(|| execute(text, ctx_a).map(|v| V::from_value(&v).key()).map_err(|e| e.to_string()));
+    say(&format!("outer {:?}", r));
+    let _ = tb.join();
+    say("done");
+    0
+}
+
+pub fn run_shared(form: &str, action: &str, companion: &str, env: &Env, st: &mut Stats) -> CaseResult {
+    let scenario = json!({"shared_handle": true, "form": form, "action": action, "companion": companion, "settle_ms": 30});
+    st.eval();
+    st.nontrivial(&format!("shared>{}>{}>{}", form, action, companion));
+    st.hist("shared-handle-companion");
+    st.sample(|| scenario.clone());
+    let mut attempts = 0;
+    loop {
+        attempts += 1;
+        let out = run_child(&env.exe, &["worker", "c14s"], &scenario.to_string(), Duration::from_secs(10));
+        st.add_extra("child_processes", 1);
+        match out.end {
+            ChildEnd::Exit(0) if out.stdout.lines().any(|l| l == "done") => {
+                let outer = out.stdout.lines().find(|l| l.starts_with("outer ")).unwrap_or("outer ?");
+                let comp = out.stdout.lines().find(|l| l.starts_with("companion ")).unwrap_or("companion ?");
+                if !outer.starts_with("outer Ok(Ok(") || comp.contains("PANIC") || comp.starts_with("companion Err") {
+                    return Err(Failure::new(
+                        format!("shared-handle:wrong-result:{}", action),
+                        format!("context function ({}) holding its context's handle and doing `{}`, companion evaluation {:?} on the same handle: `{}`, `{}`; child output:\n{}", form, action, companion, outer, comp, out.stdout),
+                        scenario,
+                    ));
+                }
+                return Ok(());
+            }
+            ChildEnd::Timeout => {
+                if attempts < 3 {
+                    continue;
+                }
+                return Err(Failure::new(
+                    format!("hang:shared-handle:{}", action),
+                    format!(
+                        "a context function ({}) holds the guard of its context's handle and does `{}`, while a second evaluation of {:?} runs on the same handle: no result within 10 s (three times) - the second evaluation waits for the context while holding an engine lock; child output so far:\n{}",
+                        form, action, companion, out.stdout
+                    ),
+                    scenario,
+                ));
+            }
+            other => {
+                return Err(Failure::new(
+                    format!("child:{:?}", other).replace(' ', ""),
+                    format!("shared-handle scenario {}: child ended abnormally ({:?}); stdout:\n{}\nstderr: {}", scenario, other, out.stdout, out.stderr),
+                    scenario,
+                ))
+            }
+        }
+    }
+}
+
 fn fixed(env: &Env, st: &mut Stats) -> CaseResult {
     let mut i = 0u64;
+    // the shared-handle scenarios: every action x every companion program, form alternating
+    for (ai, a) in SHARED_ACTIONS.iter().enumerate() {
+        for (ci, c) in SHARED_COMPANIONS.iter().enumerate() {
+            i += 1;
+            if env.mine(i) {
+                run_shared(SHARED_FORMS[(ai + ci) % 2], a, c, env, st)?;
+            }
+        }
+    }
     for k in KINDS {
         for a in ACTIONS {
             i += 1;
@@ -455,6 +607,11 @@ fn case(src: &mut Src, st: &mut Stats, env: &Env) -> CaseResult {
 }
 
 fn replay(case: &J, st: &mut Stats, env: &Env) -> CaseResult {
+    if case["shared_handle"].as_bool() == Some(true) {
+        let f = SHARED_FORMS.iter().find(|x| Some(**x) == case["form"].as_str()).copied().unwrap_or("call");
+        let a = SHARED_ACTIONS.iter().find(|x| Some(**x) == case["action"].as_str()).copied().unwrap_or("parse");
+        return run_shared(f, a, case["companion"].as_str().unwrap_or("1"), env, st);
+    }
     let chain: Vec<String> = case["chain"].as_array().map(|a| a.iter().map(|x| x.as_str().unwrap_or("").to_string()).collect()).unwrap_or_default();
     let refs: Vec<&str> = chain.iter().map(|s| KINDS.iter().find(|k| **k == s.as_str()).copied().unwrap_or("global-function")).collect();
     let action = ACTIONS.iter().find(|a| Some(**a) == case["action"].as_str()).copied().unwrap_or("parse");
